@@ -7,6 +7,8 @@ package vtime
 
 import "time"
 
+//go:generate go run ../cmd/genvos
+
 var (
 	Cur  = time.Date(2021, 3, 4, 5, 6, 7, 0, time.UTC)
 	Step = time.Millisecond
